@@ -61,7 +61,7 @@ fn main() {
         check_optic(&uo.get_open(i / 2), Arc::new(r), &serde_json::json!(r), bound, loc)
     }));
     let circuits = ohmc::props::c14::circuits(2, 2, 2);
-    let nc = if quick { circuits.len().min(400) } else { circuits.len() };
+    let nc = circuits.len();
     ctx.run_slice(Slice::new(format!("optic-derivative-lenses[{} circuits; deviations <= {}]", nc, bound), nc as u64, |i, loc| check_optic(&circuits[i as usize], Arc::new(RDiff), &serde_json::json!("reverse-derivative lenses"), bound, loc)));
     // layering
     let slays = if quick { vec![Spec::hyper(3, 2, 2, 1, 1)] } else { vec![Spec::hyper(3, 2, 2, 1, 1), Spec { e_min: 3, ..Spec::hyper(2, 3, 2, 1, 1) }, Spec { n_min: 4, ..Spec::hyper(4, 2, 1, 1, 1) }] };
